@@ -9,8 +9,16 @@
    length, pow2ceil capacity and arbitrary contents (malloc_ok) and whose Free never fails (free_ok).
    Hypotheses common to all theorems: g is well formed (gwf: 0 <= ri <= len <= cap, ten buckets), sizes are
    below 2^59 (gsmall / st_small, op_small: the 64-bit arithmetic of the doubling loops is exact), the fuel is
-   above 64 and above loop_fuel of the source (one unit per script entry and per undelivered byte).
-   RInv D F CH c (abs g) is the C04 invariant of the ABSTRACTION of g. *)
+   above 64 and at least loop_fuel of the source (one unit per script entry and per undelivered byte; the
+   source only shrinks, so for a history it is enough that this holds at the start: run_ok_of_small).
+   RInv D F CH c (abs g) is the C04 invariant of the ABSTRACTION of g.
+
+   Writer (second part of the file).  The hand model Model/BufWriter.v is a heap model (the caller stores
+   into Malloc'ed regions later, through aliases); the generated definitions are value-level.  The theorems
+   follow the model state st along a history and run the generated methods on conc st (the generated state
+   st stands for, Proofs/GenEquivBufWriter.v): they return conc of the model's next state, the allocator at
+   the model's block count, and the model's outputs.  g_L w is the logical unflushed string computed from the
+   GENERATED state (parked segments, then the current buffer); g_L (conc st) = Lof st. *)
 From GV Require Import Lib.Bytes Lib.Res Lib.GoSem Gen.Consts Gen.Funcs Model.BufReader Spec.Cursor
      Proofs.BufReaderLib Proofs.BufReaderP Proofs.GenLib Proofs.GenLib3 Proofs.GenLib4 Proofs.GenEquivBufReader.
 From Coq Require Import ZifyN ZifyNat ZifyBool.
@@ -151,11 +159,11 @@ Section C04.
   Qed.
 
   (* ---- C04_inv_step / C04_inv_history, C04_reader_refines_cursor: every history ---- *)
-  Theorem g_C04_inv_history D F CH ops c g mst : RInv D F CH c (abs g) -> gwf g -> run_ok fuel (abs g) ops ->
+  Theorem g_C04_inv_history D F CH ops c g mst : RInv D F CH c (abs g) -> gwf g -> fuel_ok fuel g -> run_small (abs g) ops ->
     exists g' mst' outs c', g_run mal fr fuel (g, mst) ops = Ok (g', mst', map (fun p => obs_of (fst p) (snd p)) (combine ops outs)) /\
       length outs = length ops /\ gwf g' /\ (c <= c')%N /\ RInv D F CH c' (abs g').
   Proof.
-    intros HI Hwf Hok.
+    intros HI Hwf Hfu Hsm. pose proof (run_ok_of_small fuel ops (abs g) Hfu Hsm) as Hok.
     destruct (g_run_sim mal fr fuel mal_ok fr_ok fuel64 ops g mst Hwf Hok) as (g' & mst' & E & Ea & Hwf').
     destruct (r_run (abs g) ops) as [st' outs] eqn:Er. cbn [fst snd] in *.
     destruct (rinv_run D F CH ops c (abs g) st' outs HI Er) as (c' & Hc & HI').
@@ -167,13 +175,14 @@ Section C04.
   Qed.
 
   (* the state NewDefaultReader(rd) builds: reset(rd, nil) — Proofs/GenEquivBufReader.v g_reset_eq, g_fresh_new_reader *)
-  Theorem g_C04_reader_refines_cursor s ops mst : spos s = 0%N -> run_ok fuel (new_reader s) ops ->
+  Theorem g_C04_reader_refines_cursor s ops mst : spos s = 0%N -> (loop_fuel (cur_of s) <= fuel)%nat -> run_small (new_reader s) ops ->
     exists g' mst' outs,
       g_run mal fr fuel (g_fresh s gcs_nil, mst) ops = Ok (g', mst', map (fun p => obs_of (fst p) (snd p)) (combine ops outs)) /\
       length outs = length ops /\
       cursor_run (sdata s) (sfinal s) (schunks s) cursor0 ops outs = true.
   Proof.
-    intros Hs Hok. pose proof (g_fresh_wf s gcs_nil cs_wf_nil) as Hwf. rewrite <- g_fresh_new_reader in Hok.
+    intros Hs Hfu Hsm. pose proof (run_ok_of_small fuel ops (new_reader s) Hfu Hsm) as Hok.
+    pose proof (g_fresh_wf s gcs_nil cs_wf_nil) as Hwf. rewrite <- g_fresh_new_reader in Hok.
     destruct (g_run_sim mal fr fuel mal_ok fr_ok fuel64 ops (g_fresh s gcs_nil) mst Hwf Hok) as (g' & mst' & E & Ea & Hwf').
     rewrite g_fresh_new_reader in *.
     exists g', mst', (snd (r_run (new_reader s) ops)). split; [exact E|]. split.
@@ -184,14 +193,17 @@ Section C04.
 
   (* the state NewBytesReader(buf) builds: reset(fakeIOReader, buf) *)
   Theorem g_C04_bytes_reader_refines_cursor (mem : bytes) (l : N) ops mst : (l <= len mem)%N ->
-    run_ok fuel (new_bytes_reader (take l mem) (len mem)) ops ->
+    run_small (new_bytes_reader (take l mem) (len mem)) ops ->
     exists g' mst' outs,
       g_run mal fr fuel (g_fresh fake_source (Some (mem, Z.of_N l)), mst) ops
         = Ok (g', mst', map (fun p => obs_of (fst p) (snd p)) (combine ops outs)) /\
       length outs = length ops /\
       cursor_run (take l mem) e_eof [] cursor0 ops outs = true.
   Proof.
-    intros Hl Hok. assert (Hwf : gwf (g_fresh fake_source (Some (mem, Z.of_N l)))).
+    intros Hl Hsm.
+    assert (Hok : run_ok fuel (new_bytes_reader (take l mem) (len mem)) ops).
+    { apply run_ok_of_small; [|exact Hsm]. unfold new_bytes_reader, new_reader. destruct (0 <? len mem)%N; cbn [src]; change (loop_fuel (cur_of fake_source)) with 1%nat; lia. }
+    assert (Hwf : gwf (g_fresh fake_source (Some (mem, Z.of_N l)))).
     { apply g_fresh_wf. unfold cs_wf. rewrite gcs_len_some, gcs_cap_some. unfold glen. lia. }
     rewrite <- (g_fresh_bytes_reader mem l Hl) in Hok.
     destruct (g_run_sim mal fr fuel mal_ok fr_ok fuel64 ops _ mst Hwf Hok) as (g' & mst' & E & Ea & Hwf').
@@ -257,3 +269,262 @@ Print Assumptions g_C04_reader_refines_cursor.
 Print Assumptions g_C04_bytes_reader_refines_cursor.
 Print Assumptions g_C04_fitting_next_succeeds.
 Print Assumptions g_C04_overlong_next_fails.
+
+
+(* ======================================================================================================
+   C05 — the buffered writer
+   ====================================================================================================== *)
+From GV Require Import Lib.Heap Spec.Log Model.BufWriter Proofs.BufWriterLib Proofs.BufWriterP Proofs.BufWriterInv
+     Proofs.BufWriterOps Proofs.BufWriterLog Proofs.BufWriterRef Proofs.BufWriterThm Proofs.GenEquivBufWriter.
+
+(* the logical string of a generated writer state *)
+Fixpoint g_stitched (pd : list gcslice) (from : N) (cur : gcslice) : bytes :=
+  match pd with
+  | [] => take (Z.to_N (gcs_len cur) - from) (drop from (gcs_mem cur))
+  | b :: rest => (take (Z.to_N (gcs_len b) - from) (drop from (gcs_mem b)) ++ g_stitched rest (Z.to_N (gcs_len b)) cur)%list
+  end.
+Definition g_L (w : gw) : bytes :=
+  match w_buf w with None => [] | Some _ => g_stitched (gcsl_items (w_pend w)) 0 (w_buf w) end.
+
+Lemma g_stitched_conc h pd : forall from c l,
+  g_stitched (map (cs_of h) pd) from (cs_of h (c, l)) = stitched h pd from c l.
+Proof.
+  induction pd as [|[b lb] rest IH]; intros from c l; cbn [map g_stitched stitched].
+  - unfold cs_of. cbn [fst snd gcs_len gcs_mem]. rewrite N2Z.id. reflexivity.
+  - rewrite IH. unfold cs_of at 1 2 3. cbn [fst snd gcs_len gcs_mem]. rewrite !N2Z.id. reflexivity.
+Qed.
+
+Lemma g_L_conc st : g_L (conc st) = Lof st.
+Proof.
+  unfold g_L, Lof, conc. cbn [w_buf w_pend]. destruct (cur st) as [[c l]|]; [|reflexivity].
+  unfold cs_of at 1. rewrite pend_of_items. apply g_stitched_conc.
+Qed.
+
+(* the error class the history observations use: errNegativeCount is class E_NEG *)
+Definition wclass (e : gerror) : Z :=
+  match e with None => E_NONE | Some c => if c =? ecode "bufiox.errNegativeCount" then E_NEG else c end.
+
+Section C05.
+  Variable dirty : nat -> bytes.
+  Variable fuel : nat.
+  Hypothesis fuel64 : (64 < fuel)%nat.
+
+  Notation gMalloc st n := (g_bufiox_DefaultWriter_Malloc sinkst nat (w_bytes dirty) (w_malloc dirty) fuel false
+      (w_buf (conc st)) (w_pend (conc st)) (w_wd (conc st)) (w_err (conc st)) (w_bk (conc st)) (w_bi (conc st)) (w_nc (conc st))
+      n (length (store st))).
+  Notation gWriteBinary st bs := (g_bufiox_DefaultWriter_WriteBinary sinkst nat (w_bytes dirty) (w_malloc dirty) fuel false
+      (w_buf (conc st)) (w_pend (conc st)) (w_wd (conc st)) (w_err (conc st)) (w_bk (conc st)) (w_bi (conc st)) (w_nc (conc st))
+      bs (length (store st))).
+  Notation gFlush st := (g_bufiox_DefaultWriter_Flush sinkst wd_write nat w_free false
+      (w_buf (conc st)) (w_pend (conc st)) (w_wd (conc st)) (w_err (conc st)) (w_bk (conc st)) (w_bi (conc st)) (w_nc (conc st))
+      (length (store st))).
+  Notation gWrittenLen st := (g_bufiox_DefaultWriter_WrittenLen sinkst false
+      (w_buf (conc st)) (w_pend (conc st)) (w_wd (conc st)) (w_err (conc st)) (w_bk (conc st)) (w_bi (conc st)) (w_nc (conc st))).
+
+  Definition g_written_len (w : gw) : Z := gcs_len (w_buf w).
+  Lemma g_written_len_conc st : g_written_len (conc st) = Z.of_N (written_len st).
+  Proof. apply conc_len. Qed.
+
+  (* ---- Malloc: a window of n bytes at WrittenLen; the logical string grows by n undetermined bytes ---- *)
+  Theorem g_C05_malloc st n : Inv st -> wsmall st -> werr st = None -> 0 <= n < 2 ^ 59 ->
+    exists st' b d, gMalloc st n = Ok (wret (conc st'), length (store st'), b, None) /\ Inv st' /\
+      len b = Z.to_N n /\ g_L (conc st') = (g_L (conc st) ++ d)%list /\ len d = Z.to_N n /\
+      g_written_len (conc st') = g_written_len (conc st) + n.
+  Proof.
+    intros HI Hsm He Hn.
+    destruct (malloc_ok dirty st n HI He ltac:(lia)) as (st' & r & d & E & HI' & HL & Hd & Hlen & _ & Hro & Hrl & _ & Hnil & _).
+    exists st', (take (rlen r) (drop (roff r) (block (store st') (rid r)))), d.
+    split; [apply (g_w_Malloc_sim dirty fuel fuel64 st n st' r HI Hsm Hn He E)|]. split; [exact HI'|].
+    rewrite !g_L_conc, !g_written_len_conc. unfold written_len. split; [|split; [exact HL|split; [exact Hd|lia]]].
+    (* the window lies inside the current block *)
+    unfold malloc in E. rewrite He in E. destruct (Z.ltb_spec n 0); [lia|].
+    destruct (acquire dirty st (Z.to_N n)) as [st1| | |]; cbn [bind] in E; try discriminate.
+    destruct (N.leb_spec (cur_len st1 + Z.to_N n) (cur_cap st1)); [|discriminate].
+    unfold cur_len, cur_cap in *. destruct (cur st1) as [[c l]|] eqn:Hc1; inversion E; subst st' r; cbn [rlen roff rid with_live with_mem store].
+    - rewrite len_take, len_drop. lia.
+    - cbn. lia.
+  Qed.
+
+  (* ---- WriteBinary: never short; the logical string grows by exactly bs ---- *)
+  Theorem g_C05_write_binary st (bs : bytes) : Inv st -> wsmall st -> werr st = None -> (len bs < 2 ^ 59)%N ->
+    exists st', gWriteBinary st bs = Ok (wret (conc st'), length (store st'), glen bs, None) /\ Inv st' /\
+      g_L (conc st') = (g_L (conc st) ++ bs)%list /\ g_written_len (conc st') = g_written_len (conc st) + glen bs.
+  Proof.
+    intros HI Hsm He Hn.
+    destruct (write_binary_ok dirty st bs HI He) as (st' & E & HI' & HL & Hlen & _).
+    exists st'. split; [apply (g_w_WriteBinary_sim dirty fuel fuel64 st bs st' (len bs) HI Hsm Hn He E)|]. split; [exact HI'|].
+    rewrite !g_L_conc, !g_written_len_conc. unfold written_len, glen. split; [exact HL|lia].
+  Qed.
+
+  (* ---- C05_malloc_negative / C05_error_sticky, per operation: an error and no state change ---- *)
+  Theorem g_C05_malloc_negative st n : werr st = None -> n < 0 ->
+    exists e, gMalloc st n = Ok (wret (conc st), length (store st), [], e) /\ wclass e = E_NEG.
+  Proof. intros He Hn. eexists. split; [apply g_w_Malloc_neg; assumption|reflexivity]. Qed.
+
+  Theorem g_C05_error_sticky st e n (bs : bytes) : werr st = Some e ->
+    gMalloc st n = Ok (wret (conc st), length (store st), [], Some e) /\
+    gWriteBinary st bs = Ok (wret (conc st), length (store st), 0, Some e) /\
+    gFlush st = Ok (wret (conc st), length (store st), Some e).
+  Proof.
+    intros He. split; [apply g_w_Malloc_err; exact He|]. split; [apply g_w_WriteBinary_err; exact He|].
+    rewrite g_w_Flush_unfold. change (w_err (conc st)) with (werr st). rewrite He. cbn [is_nil negb].
+    unfold wret. cbn [conc w_buf w_pend w_wd w_err w_bk w_bi w_nc]. rewrite He. reflexivity.
+  Qed.
+
+  (* ---- Flush: the sink is offered exactly the logical string, once; success drops the buffers and clears
+          WrittenLen (C05_flush_success_resets); a sink error is recorded and the log is unchanged
+          (C05_flush_error_recorded) ---- *)
+  Theorem g_C05_flush st : Inv st -> wsmall st -> werr st = None -> cur st <> None ->
+    exists st' e, gFlush st = Ok (wret (conc st'), length (store st'), e) /\
+      ((e = None /\ klog (w_wd (conc st')) = (klog (w_wd (conc st)) ++ [g_L (conc st)])%list /\
+        g_written_len (conc st') = 0 /\ w_err (conc st') = None /\ g_L (conc st') = []) \/
+       (exists ev, e = Some ev /\ w_err (conc st') = Some ev /\ klog (w_wd (conc st')) = klog (w_wd (conc st)) /\
+                   g_L (conc st') = g_L (conc st))).
+  Proof.
+    intros HI Hsm He Hcur. destruct (cur st) as [[c l]|] eqn:Ec; [|congruence].
+    destruct (flush_ok st c l HI He Ec) as (h' & Hlen & Hbl & Hc & Ht & Hst & E).
+    rewrite !g_L_conc.
+    destruct (sink_write (sink st) (c, l) (Lof st)) as [k' [ev|]] eqn:Es.
+    - eexists _, (Some ev). split; [apply (g_w_Flush_sim st _ _ _ HI Hsm E)|]. right. exists ev. split; [reflexivity|].
+      rewrite g_L_conc. cbn [conc w_err w_wd werr sink ksink klog]. split; [reflexivity|]. split.
+      + unfold sink_write in Es. destruct (kfake (sink st)); [inversion Es|].
+        destruct (kcalls (sink st) + 1 =? kfail (sink st))%N; inversion Es; subst. reflexivity.
+      + unfold Lof at 1. cbn [cur store pend]. rewrite Ec. exact Hst.
+    - eexists _, None. split; [apply (g_w_Flush_sim st _ _ _ HI Hsm E)|]. left. split; [reflexivity|].
+      rewrite g_L_conc. unfold g_written_len.
+      destruct (stat_update (buckets st) (bidx st) (len (block h' c))) as [bk bi].
+      cbn [conc w_buf w_err w_wd werr sink cur ksink klog gcs_len]. split.
+      + unfold sink_write in Es. destruct (kfake (sink st)); [inversion Es; subst; reflexivity|].
+        destruct (kcalls (sink st) + 1 =? kfail (sink st))%N; inversion Es; subst. reflexivity.
+      + split; [reflexivity|]. split; reflexivity.
+  Qed.
+
+  (* ---- the trace form of C05_writer_refines_log: along EVERY history of the model, from every constructor, each
+          generated method run on conc of the current model state returns conc of the model's next state and the
+          model's observation; a caller's store (OFill) acts on the model state only ---- *)
+  Definition g_wstep_ok (st : wstate) (o : wop) : Prop :=
+    let st' := fst (wstep dirty st o) in
+    let ob := snd (wstep dirty st o) in
+    match o with
+    | OMalloc n => exists b e, gMalloc st n = Ok (wret (conc st'), length (store st'), b, e) /\ wclass e = o_err ob
+    | OWrite bs => exists k e, gWriteBinary st bs = Ok (wret (conc st'), length (store st'), k, e) /\
+                     (match e with None => if k =? glen bs then E_NONE else E_SHORT | Some _ => wclass e end) = o_err ob
+    | OFlush => exists e, gFlush st = Ok (wret (conc st'), length (store st'), e) /\ wclass e = o_err ob /\
+                  (forall content, o_sink ob = Some content -> klog (w_wd (conc st')) = (klog (w_wd (conc st)) ++ [content])%list)
+    | OLen => gWrittenLen st = Ok (wret (conc st'), Z.of_N (o_len ob))
+    | OFill _ _ _ => True
+    end /\ g_written_len (conc st') = Z.of_N (o_len ob).
+
+  Definition wop_small (o : wop) : Prop :=
+    match o with OMalloc n => n < 2 ^ 59 | OWrite bs => (len bs < 2 ^ 59)%N | _ => True end.
+  Fixpoint w_run_ok (st : wstate) (h : list wop) : Prop :=
+    match h with [] => True | o :: r => wsmall st /\ wop_small o /\ w_run_ok (fst (wstep dirty st o)) r end.
+  Fixpoint g_follows (st : wstate) (h : list wop) : Prop :=
+    match h with [] => True | o :: r => g_wstep_ok st o /\ g_follows (fst (wstep dirty st o)) r end.
+
+  Lemma wstep_len_obs st o : Z.of_N (o_len (snd (wstep dirty st o))) = Z.of_N (written_len (fst (wstep dirty st o))).
+  Proof. rewrite wstep_len. reflexivity. Qed.
+
+  Theorem g_wstep_sim st s o : Sim st s -> wsmall st -> wop_small o -> g_wstep_ok st o.
+  Proof.
+    intros HS Hsm Hop. pose proof (sim_inv _ _ HS) as HI.
+    assert (Herrv : werr st = None \/ werr st = Some E_SINK).
+    { rewrite <- (sim_err _ _ HS). exact (sim_errv _ _ HS). }
+    unfold g_wstep_ok. split; [|rewrite g_written_len_conc; symmetry; apply wstep_len_obs].
+    destruct o as [n|bs|k off data| |]; cbn [wop_small] in Hop; cbn [wstep].
+    - (* Malloc *)
+      destruct Herrv as [He|He].
+      + destruct (Z.ltb_spec n 0) as [Hneg|Hpos].
+        * rewrite (malloc_neg dirty st n He Hneg). cbn [fst snd crash_obs o_err].
+          eexists _, _. split; [apply g_w_Malloc_neg; assumption|reflexivity].
+        * destruct (malloc_ok dirty st n HI He Hpos) as (st' & r & d & E & _). rewrite E. cbn [fst snd o_err].
+          eexists _, _. split; [apply (g_w_Malloc_sim dirty fuel fuel64 st n st' r HI Hsm ltac:(lia) He E)|reflexivity].
+      + rewrite (malloc_err dirty st n _ He). cbn [fst snd crash_obs o_err].
+        eexists _, _. split; [apply g_w_Malloc_err; exact He|reflexivity].
+    - (* WriteBinary *)
+      destruct Herrv as [He|He].
+      + destruct (write_binary_ok dirty st bs HI He) as (st' & E & _). rewrite E. cbn [fst snd o_err].
+        eexists _, _. split; [apply (g_w_WriteBinary_sim dirty fuel fuel64 st bs st' (len bs) HI Hsm Hop He E)|].
+        unfold glen. rewrite Z.eqb_refl, N.eqb_refl. reflexivity.
+      + rewrite (write_binary_err dirty st bs _ He). cbn [fst snd crash_obs o_err].
+        eexists _, _. split; [apply g_w_WriteBinary_err; exact He|reflexivity].
+    - exact I.
+    - (* Flush *)
+      assert (Hf : exists st' e wr, flush st = Ok (st', e, wr) /\ (forall ev, e = Some ev -> wr = None /\ (ev = E_SINK)) /\
+                   (forall content, wr = Some content -> klog (sink st') = (klog (sink st) ++ [content])%list)).
+      { destruct Herrv as [He|He].
+        - destruct (cur st) as [[c l]|] eqn:Ec.
+          + destruct (flush_ok st c l HI He Ec) as (h' & _ & _ & _ & _ & _ & E). rewrite E.
+            unfold sink_write. destruct (kfake (sink st)).
+            * destruct (stat_update (buckets st) (bidx st) (len (block h' c))). eexists _, _, _. split; [reflexivity|].
+              split; [intros ev X; discriminate|]. intros content X. inversion X; subst. reflexivity.
+            * destruct (kcalls (sink st) + 1 =? kfail (sink st))%N.
+              -- eexists _, _, _. split; [reflexivity|]. split; [intros ev X; inversion X; auto|]. intros content X. discriminate.
+              -- destruct (stat_update (buckets st) (bidx st) (len (block h' c))). eexists _, _, _. split; [reflexivity|].
+                 split; [intros ev X; discriminate|]. intros content X. inversion X; subst. reflexivity.
+          + rewrite (flush_nil st He Ec). eexists _, _, _. split; [reflexivity|]. split; [intros ev X; discriminate|]. intros content X. discriminate.
+        - rewrite (flush_err st _ He). eexists _, _, _. split; [reflexivity|]. split; [intros ev X; inversion X; auto|]. intros content X. discriminate. }
+      destruct Hf as (st' & e & wr & E & Hev & Hwr). rewrite E. cbn [fst snd o_err o_sink].
+      exists e. split; [apply (g_w_Flush_sim st st' e wr HI Hsm E)|]. split.
+      + destruct e as [ev|]; [|reflexivity]. destruct (Hev ev eq_refl) as [_ ->]. reflexivity.
+      + intros content X. cbn [conc w_wd ksink klog]. apply Hwr. exact X.
+    - apply g_w_WrittenLen_eq.
+  Qed.
+
+  Theorem g_C05_follows : forall h st s, Sim st s -> w_run_ok st h -> g_follows st h.
+  Proof.
+    induction h as [|o r IH]; intros st s HS Hok; cbn [g_follows w_run_ok] in *; [exact I|].
+    destruct Hok as (Hsm & Hop & Hok). split; [apply (g_wstep_sim st s o HS Hsm Hop)|].
+    destruct (sim_step dirty st s o HS) as [HS' _]. apply (IH _ _ HS' Hok).
+  Qed.
+
+  (* from every constructor (NewDefaultWriter over a sink failing at any Write; NewBytesWriter over nil / any slice) *)
+  Theorem g_C05_writer_follows_model w0 l0 h : init_pair w0 l0 -> w_run_ok w0 h -> g_follows w0 h.
+  Proof. intros Hi Hok. apply (g_C05_follows h w0 l0 (sim_init _ _ Hi) Hok). Qed.
+End C05.
+
+(* ---- non-vacuity: the generated writer computes; the example history of C05 (two growths, regions stored
+        lazily, two flushes) followed on the generated code ---- *)
+Ltac wsmall_tac :=
+  unfold wsmall; repeat match goal with |- _ /\ _ => split end;
+  [ vm_compute; reflexivity
+  | match goal with |- Forall _ ?l => let l' := eval vm_compute in l in change l with l' end;
+    repeat constructor; vm_compute; reflexivity
+  | vm_compute; reflexivity
+  | vm_compute; reflexivity ].
+
+Example g_C05_example_follows :
+  g_follows (fun _ : nat => ([] : bytes)) 70 (new_writer 0)
+    [OMalloc 3; OWrite [1; 2]%N; OMalloc 5000; OFill 0 0 [7; 8; 9]%N; OMalloc 1; OFill 2 0 [5]%N;
+     OFill 1 0 (repeat 6%N 5000); OFlush; OWrite [4]%N; OMalloc (-1); OFlush].
+Proof.
+  apply (g_C05_writer_follows_model (fun _ : nat => ([] : bytes)) 70 ltac:(lia) (new_writer 0) (log_new 0)); [constructor|].
+  cbn [w_run_ok wop_small].
+  repeat (split; [wsmall_tac|split; [first [exact I | vm_compute; reflexivity]|]]). exact I.
+Qed.
+
+(* the generated methods themselves, chained on the state NewDefaultWriter builds: Malloc(3) hands out three
+   (dirty: zero) bytes, WriteBinary appends, a Malloc beyond the capacity parks the first buffer, Flush stitches
+   the parked prefix back and hands the sink the whole string once *)
+Example g_C05_generated_computes :
+  let d := fun _ : nat => ([] : bytes) in
+  let w0 := conc (new_writer 0) in
+  (do (buf, pend, wd, err, bk, bi, nc, k, b1, e1) <-
+     g_bufiox_DefaultWriter_Malloc sinkst nat (w_bytes d) (w_malloc d) 70 false
+       (w_buf w0) (w_pend w0) (w_wd w0) (w_err w0) (w_bk w0) (w_bi w0) (w_nc w0) 3 O;
+   do (buf, pend, wd, err, bk, bi, nc, k, n2, e2) <-
+     g_bufiox_DefaultWriter_WriteBinary sinkst nat (w_bytes d) (w_malloc d) 70 false buf pend wd err bk bi nc [1; 2]%N k;
+   do (buf, pend, wd, err, bk, bi, nc, k, b3, e3) <-
+     g_bufiox_DefaultWriter_Malloc sinkst nat (w_bytes d) (w_malloc d) 70 false buf pend wd err bk bi nc 5000 k;
+   do (buf, pend, wd, err, bk, bi, nc, k, e4) <-
+     g_bufiox_DefaultWriter_Flush sinkst wd_write nat w_free false buf pend wd err bk bi nc k;
+   Ok (b1, n2, len b3, gcsl_len pend, k, map (fun x => take 6 x) (klog wd), map len (klog wd), e4, gcs_is_nil buf))
+  = Ok ([0; 0; 0]%N, 2, 5000%N, 0, 2%nat, [[0; 0; 0; 1; 2; 0]%N], [5005%N], None, true).
+Proof. vm_compute. reflexivity. Qed.
+
+Print Assumptions g_C05_malloc.
+Print Assumptions g_C05_write_binary.
+Print Assumptions g_C05_malloc_negative.
+Print Assumptions g_C05_error_sticky.
+Print Assumptions g_C05_flush.
+Print Assumptions g_C05_writer_follows_model.
